@@ -31,6 +31,34 @@ def c14_mc(work, quick, violations):
     return {"stats": r["stats"], "scripts": scripts}
 
 
+def registry_mc(work, quick, violations):
+    """MCTurns with push subscriptions: all interleavings of creates and deletes of one name at turn
+    granularity keep the push registry exact at rest (C14_RegistryExact); the pinned order (the
+    deletion leaves the manager's map before the registry) must be rejected."""
+    import plans
+    T1R, S1R = plans.T1R, plans.S1R
+    ops = {"ct": '[op |-> "CreateTopic", name |-> %s]' % T1R,
+           "cs": '[op |-> "CreateSub", name |-> %s, topic |-> %s, push |-> "A"]' % (S1R, T1R),
+           "cs2": '[op |-> "CreateSub", name |-> %s, topic |-> %s, push |-> "B"]' % (S1R, T1R),
+           "ds": '[op |-> "DeleteSub", name |-> %s]' % S1R,
+           "ds2": '[op |-> "DeleteSub", name |-> %s]' % S1R}
+    if not quick:
+        ops["cs3"] = '[op |-> "CreateSub", name |-> %s, topic |-> %s]' % (S1R, T1R)
+        ops["pub"] = '[op |-> "Publish", topic |-> %s, n |-> 1]' % T1R
+    invs = ("InvCore", "InvRest", "InvNoDeadAttached", "InvMapsLive", "InvRegistry")
+    m = V.turns_mc(os.path.join(work, "mct"), "registry", ops, invariants=invs)
+    if m["stats"] is None:
+        raise V.ToolError("TLC failed on MCTurns (registry):\n" + m["out"][-1500:])
+    if m["error"]:
+        path = V.save_replay("C14", 0, {"kind": "model", "module": "MCTurns", "error": m["error"], "trace": m["trace"],
+                                        "tlc_output_tail": m["out"][-4000:]})
+        violations.append(("model MCTurns (registry): " + m["error"], path))
+    pinned = V.turns_mc(os.path.join(work, "mct"), "registry_pinned", ops, switches={"UnregisterFirst": False}, invariants=invs)
+    if not pinned["error"] or "InvRegistry" not in pinned["error"]:
+        raise V.ToolError("vacuity: MCTurns with UnregisterFirst=FALSE does not violate InvRegistry")
+    return {"stats": m["stats"], "pinned_counterexample_steps": len(pinned["trace"])}
+
+
 def c14_scenarios(scripts, seed, quick, call, scn):
     rnd = random.Random(seed)
     # 1xx statuses are interim responses in HTTP/1.1: neither hyper's server nor reqwest's client can
@@ -139,6 +167,13 @@ def plan_c14(prop, tier, seed, t0):
     scn_path = os.path.join(work, "scenarios.ndjson")
     V.write_scenarios(scn_path, scenarios)
     traces = V.dvh_replay(scn_path, os.path.join(work, "replay"), 8)
+    # the push registry against create / delete races of one name: multi-threaded runs in which the
+    # deleting actor is held in the window next to its registry removal (sync point s.del.registry)
+    # while another client creates the name again
+    n_reg = 60 if quick else 3000
+    traces += V.dvh_explore("mt:regrace", seed * 100000, seed * 100000 + n_reg, os.path.join(work, "regrace"), 2 if quick else 8)
+    reg = registry_mc(work, quick, violations)
+    r["stats"] = {k: r["stats"][k] + reg["stats"][k] for k in r["stats"]}
     results = V.validate_traces(traces, work, parallel=8)
     return plans.finish(prop, tier, seed, t0, work, {"stats": r["stats"]}, scenarios, traces, results, violations, len(r["scripts"]), build_s,
                         "push scenarios run under the real clock (real sockets on loopback): lateness is not judged there; "
